@@ -868,6 +868,8 @@ impl<K: Kind> Scenario for Bf<K> {
                 let mref = self.mref().clone();
                 let xs: Vec<K::F> = mref.with_manager_shared(|m| (0..vars).map(|v| K::F::var(m, v).unwrap()).collect());
                 let mut cache: SatCountCache<oxidd_core::util::num::Saturating<u64>, std::hash::RandomState> = SatCountCache::default();
+                // every node is memoised (by default only nodes with more than one reference are)
+                cache.cache_all = true;
                 let expected_f1: u64 = 4u64.pow(n as u32) - 3u64.pow(n as u32);
                 for round in 0..rounds {
                     let mut f1 = xs[0].and(&xs[n]).unwrap();
@@ -1152,7 +1154,12 @@ impl<K: Kind> Scenario for Bf<K> {
                         } else {
                             match self.state.remove(&key) {
                                 Some(b) => b.downcast().unwrap(),
-                                None => Box::new(SatCountCache::default()),
+                                None => {
+                                    let mut c: SatCountCache<$ty, std::hash::RandomState> = SatCountCache::default();
+                                    // caches named `…all` memoise every node, not only the shared ones
+                                    c.cache_all = cname.ends_with("all");
+                                    Box::new(c)
+                                }
                             }
                         };
                         let r: $ty = f.sat_count(vars, &mut c);
